@@ -246,6 +246,7 @@ impl Driver {
         let consensus = self.w.node.shared.snapshot().consensus().clone();
         let max_cycles = if rng.chance(1, 3) { rng.range(600, 4_000) } else { consensus.max_block_cycles() };
         let limit = if rng.chance(1, 2) { rng.range(200, 3_000) as usize } else { consensus.max_block_bytes() as usize };
+        crate::world::heartbeat(&format!("{}: TxPool::package_txs({max_cycles}, {limit}) after {} recorded operations", self.hist_id, self.w.jops.len()));
         let (sel, size, cycles, dump) = self.w.node.pool().verif_package_txs(max_cycles, limit);
         self.obs.c13_evals += 1;
         self.w.stat("selection_checked");
@@ -822,6 +823,7 @@ impl Driver {
             self.step_mine(rng, "warmup");
         }
         for _ in 0..steps {
+            crate::world::heartbeat(&format!("{}: step after {} recorded operations", self.hist_id, self.w.jops.len()));
             if self.fatal || self.w.viol.len() > 200 {
                 break;
             }
